@@ -213,19 +213,54 @@ def r1_r2_r5(ctx):
 
 
 def error_reply_callers(ctx, rid):
-    """util.write_error is called by Worker.handle_error only, and handle_error only from the handle() functions: a
-    handle_request (which may already have put a response head on the wire) never writes an error reply itself"""
+    """An error reply is a complete response: it may only be written while nothing of another response is on the wire.
+    util.write_error is called by Worker.handle_error (reached from the handle() functions, i.e. before a response object
+    exists or after handle_request re-raised under its `headers_sent` guard) -- or, inside a handle_request, only on paths on
+    which `resp.headers_sent` was found false, with literal status and reason"""
     repo = ctx.repo
-    callers = [(ff, c) for ff in repo.funcs() for c, q in repo.calls_in(ff) if q == "gunicorn.util.write_error"]
-    ctx.need(callers, rid + ": util.write_error has no caller")
-    for ff, c in callers:
-        ctx.check(rid, ff.qualname == BASE + ".handle_error", key(ff, "write_error-caller"), site(ff, c),
-                  "util.write_error is called from %s: an error reply written outside handle_error bypasses the `headers_sent` guard (a second response behind a started one) and the literal status/reason" % ff.short, "only handle_error")
-    for ff in repo.funcs():
+    callers = [(ff, c, q) for ff in repo.funcs() for c, q in repo.calls_in(ff) if q == "gunicorn.util.write_error" or (ff.name == "handle_request" and q and q.endswith(".handle_error"))]
+    ctx.need([1 for ff, c, q in callers if q == "gunicorn.util.write_error"], rid + ": util.write_error has no caller")
+    for ff, c, q in callers:
+        if ff.qualname == BASE + ".handle_error":
+            ctx.ok(rid, site(ff, c), "handle_error")
+            continue
+        okk = False
+        why = "an error reply written outside handle_error"
         if ff.name == "handle_request":
-            for c, q in repo.calls_in(ff):
-                if q and q.endswith(".handle_error"):
-                    ctx.bad(rid, key(ff, "handle_error-in-handle_request"), site(ff, c), "handle_request calls handle_error itself: the error reply can land behind a response head that is already on the wire")
+            rv = None
+            for cc in calls_to(repo, ff, "gunicorn.http.wsgi.create"):
+                st = ff.module.enclosing(cc, ast.Assign)
+                if st is not None and isinstance(st.targets[0], ast.Tuple) and isinstance(st.targets[0].elts[0], ast.Name):
+                    rv = st.targets[0].elts[0].id
+
+            def sent_recog(e, rv=rv):
+                if isinstance(e, ast.Attribute) and e.attr == "headers_sent":
+                    return +1
+                if isinstance(e, ast.Name) and e.id == rv:
+                    return +1
+                return None
+            p, hits = guard_check(ff, nodes_with(ff, c), sent_recog, follow_exc=True)
+            if p is not None:
+                # path-insensitive witness: decide by evaluation -- with a response object whose head is on the wire
+                # (`headers_sent` true from wsgi.create on), wherever an exception strikes, the reply site is never reached
+                from ..absint import SpecObj
+                RESP_ = SpecObj(headers_sent=True, status="200 OK", sent=5)
+
+                def atom_of(e, ff=ff):
+                    if isinstance(e, ast.Call) and repo.call_target(ff.module, ff, e) == "gunicorn.http.wsgi.create":
+                        return "CREATED"
+                    return None
+                try:
+                    outs = Explorer(ff, atom_of=atom_of, follow_implicit_exc=True, max_states=400000).run(ff.cfg.entry, {"CREATED": (RESP_, {})}, watch={n.id: "reply" for n in nodes_with(ff, c)})
+                    if hits and not any("reply" in o.events and RESP_ in [o.env.get(rv)] for o in outs):
+                        p = None
+                except AnalysisError:
+                    pass
+            lit = q != "gunicorn.util.write_error" or (len(c.args) >= 3 and isinstance(const(c.args[1], NO), int) and isinstance(const(c.args[2], NO), str))
+            okk = p is None and bool(hits) and lit
+            why = "the error reply is not guarded by `headers_sent` having been found false" if lit else "status / reason of the error reply are not literals"
+        ctx.check(rid, okk, key(ff, "error-reply-site|" + norm(c)[:40]), site(ff, c),
+                  "%s writes an error reply (`%s`): %s -- a second response can land behind a response head that is already on the wire" % (ff.short, norm(c)[:60], why), "error reply only before any response byte")
 
 
 def accept_errors(ctx, rid):
